@@ -21,7 +21,17 @@ import (
 	"verifharness/simfs"
 )
 
+// errPrefix is long enough that generated filler never starts with it by accident.
+var errPrefix = []byte("ER!callback-fails!")
+
+var errCheckpointFn = errors.New("the application cannot tell whether this entry is a checkpoint")
+
+// isCheckpoint: entries whose Data starts with "CP" are checkpoints; for entries starting with
+// errPrefix the application's callback fails (the append must then be refused as a whole).
 func isCheckpoint(l *raft.Log) (bool, error) {
+	if bytes.HasPrefix(l.Data, errPrefix) {
+		return false, errCheckpointFn
+	}
 	return bytes.HasPrefix(l.Data, []byte("CP")), nil
 }
 
